@@ -249,3 +249,171 @@ Proof.
   assert (- (wa + wb) <= da * wb - db * wa) by nia.
   lia.
 Qed.
+
+(* ---------- properties of a whole run, by induction on [Iter] ---------- *)
+
+(* L1: the result holds exactly the same nodes *)
+Lemma iter_fst_perm f T W es out :
+  Iter f T W es out -> Permutation (map fst out) (map fst es).
+Proof.
+  induction 1 as [T W es|f T W es _|f T W es _ _ _ _|f T W es out _ _ _ _ _ _ IH];
+    try apply Permutation_refl.
+  - rewrite map_app, cap_fst, <- map_app, <- (round_fst T W es).
+    apply Permutation_map. eapply Permutation_trans; [apply Permutation_app_comm|].
+    apply Permutation_sym, round_partition.
+  - rewrite map_app, cap_fst, <- (round_fst T W es).
+    eapply Permutation_trans; [apply Permutation_app_head, IH|].
+    rewrite <- map_app. apply Permutation_map.
+    eapply Permutation_trans; [apply Permutation_app_comm|].
+    apply Permutation_sym, round_partition.
+Qed.
+
+Lemma iter_nodup f T W es out :
+  Iter f T W es out -> NoDup (map ename es) -> NoDup (map ename out).
+Proof.
+  intros HI Hnd. rewrite ename_map in *.
+  eapply Permutation_NoDup; [|exact Hnd].
+  apply Permutation_map, Permutation_sym, (iter_fst_perm _ _ _ _ _ HI).
+Qed.
+
+(* L2: every node keeps at least what it had and never passes its request *)
+Lemma iter_bounds f T W es out :
+  Iter f T W es out -> all_unsat es ->
+  forall e, In e es -> exists r, In (fst e, r) out /\ snd e <= r <= request (fst e).
+Proof.
+  induction 1 as [T W es|f T W es _|f T W es HW HT _ _|f T W es out HW HT _ _ _ _ IH];
+    intros Hu e He.
+  - exists (snd e). rewrite <- surjective_pairing. split; [exact He|].
+    apply Hu, unsat_true in He. lia.
+  - exists (snd e). rewrite <- surjective_pairing. split; [exact He|].
+    apply Hu, unsat_true in He. lia.
+  - pose proof (dl_nonneg T W es e HW (Z.lt_le_incl _ _ HT)) as Hd.
+    pose proof (Hu e He) as Hue. apply unsat_true in Hue.
+    assert (H1 : In (fst e, snd e + dl T W es e) (round_es T W es)).
+    { apply round_In. exists e. auto. }
+    destruct (keep_or_full _ _ _ _ H1) as [Hk|Hf].
+    + exists (snd e + dl T W es e). split; [apply in_or_app; right; exact Hk|].
+      apply keep_In in Hk. destruct Hk as [_ Hk]. apply unsat_true in Hk. cbn [fst snd] in Hk. lia.
+    + exists (request (fst e)). split; [|lia]. apply in_or_app. left.
+      apply in_map_iff. exists (fst e, snd e + dl T W es e). split; [reflexivity|exact Hf].
+  - pose proof (dl_nonneg T W es e HW (Z.lt_le_incl _ _ HT)) as Hd.
+    pose proof (Hu e He) as Hue. apply unsat_true in Hue.
+    assert (H1 : In (fst e, snd e + dl T W es e) (round_es T W es)).
+    { apply round_In. exists e. auto. }
+    destruct (keep_or_full _ _ _ _ H1) as [Hk|Hf].
+    + destruct (IH (fun x Hx => proj2 (proj1 (keep_In T W es x) Hx)) _ Hk) as [r [Hr Hb]].
+      cbn [fst snd] in Hr, Hb. exists r. split; [apply in_or_app; right; exact Hr|lia].
+    + exists (request (fst e)). split; [|lia]. apply in_or_app. left.
+      apply in_map_iff. exists (fst e, snd e + dl T W es e). split; [reflexivity|exact Hf].
+Qed.
+
+(* L3: a run hands out at most T *)
+Lemma iter_sum_le f T W es out :
+  Iter f T W es out -> 0 <= T -> Pre W es ->
+  sumZ (map snd out) <= sumZ (map snd es) + T.
+Proof.
+  induction 1 as [T W es|f T W es _|f T W es HW HT _ _|f T W es out HW HT _ Hs _ _ IH];
+    intros HT0 HP; try lia.
+  - rewrite map_app, sumZ_app, (round_out_sum T W es HT HW HP).
+    pose proof (surplus_nonneg T W es). lia.
+  - rewrite map_app, sumZ_app.
+    pose proof (round_out_sum T W es HT HW HP).
+    specialize (IH (Z.lt_le_incl _ _ Hs) (Pre_keep T W es HP)). lia.
+Qed.
+
+Definition all_met (out : list entry) : Prop :=
+  forall e, In e out -> pos_weight (fst e) = true -> snd e = request (fst e).
+
+(* L4: with enough fuel a run hands out exactly T unless every positive-weight node is met;
+   in particular running out of fuel is unreachable *)
+Lemma iter_work f T W es out :
+  Iter f T W es out -> 0 < T -> Pre W es -> (length es < f)%nat ->
+  sumZ (map snd out) = sumZ (map snd es) + T \/ all_met out.
+Proof.
+  induction 1 as [T W es|f T W es Hstop|f T W es HW HT _ Hl|f T W es out HW HT _ Hs _ _ IH];
+    intros HT0 HP Hlen.
+  - lia.
+  - right. destruct Hstop as [HW|[HT|Hnil]]; [|lia|subst es; intros e []].
+    intros e He Hp. apply pos_weight_true in Hp.
+    pose proof (wsum_nonpos_zero es (pre_wnn _ _ HP)) as Hz.
+    rewrite <- (pre_W _ _ HP) in Hz. specialize (Hz HW e He). lia.
+  - destruct Hl as [Hl|Hl].
+    + left. rewrite map_app, sumZ_app, (round_out_sum T W es HT HW HP).
+      pose proof (surplus_nonneg T W es). lia.
+    + right. rewrite Hl, app_nil_r. intros e He _. apply cap_In in He. apply He.
+  - pose proof (keep_length_lt T W es (surplus_pos_full T W es Hs)) as Hk.
+    destruct (IH Hs (Pre_keep T W es HP) ltac:(lia)) as [IH1|IH1].
+    + left. rewrite map_app, sumZ_app. pose proof (round_out_sum T W es HT HW HP). lia.
+    + right. intros e He Hp. apply in_app_or in He. destruct He as [He|He].
+      * apply cap_In in He. apply He.
+      * apply IH1; assumption.
+Qed.
+
+(* L5: two nodes still short at the end of a run received amounts proportional to their
+   weights, up to one unit each per round (at most [length es] rounds) *)
+Lemma iter_fair f T W es out :
+  Iter f T W es out -> Pre W es ->
+  forall a b ra rb, In a es -> In b es ->
+    In (fst a, ra) out -> In (fst b, rb) out ->
+    ra < request (fst a) -> rb < request (fst b) ->
+    Z.abs ((ra - snd a) * weight (fst b) - (rb - snd b) * weight (fst a))
+    <= Z.of_nat (length es) * (weight (fst a) + weight (fst b)).
+Proof.
+  induction 1 as [T W es|f T W es _|f T W es HW HT Hne _|f T W es out HW HT Hne Hs _ HI IH];
+    intros HP a b ra rb Ha Hb Hra Hrb Hsa Hsb.
+  - assert (E1 : (fst a, ra) = a) by (apply (Pre_In_eq W es); auto).
+    assert (E2 : (fst b, rb) = b) by (apply (Pre_In_eq W es); auto).
+    rewrite <- E1, <- E2. cbn [fst snd].
+    pose proof (pre_wnn _ _ HP _ (in_map fst _ _ Ha)). pose proof (pre_wnn _ _ HP _ (in_map fst _ _ Hb)).
+    rewrite !Z.sub_diag. cbn. nia.
+  - assert (E1 : (fst a, ra) = a) by (apply (Pre_In_eq W es); auto).
+    assert (E2 : (fst b, rb) = b) by (apply (Pre_In_eq W es); auto).
+    rewrite <- E1, <- E2. cbn [fst snd].
+    pose proof (pre_wnn _ _ HP _ (in_map fst _ _ Ha)). pose proof (pre_wnn _ _ HP _ (in_map fst _ _ Hb)).
+    rewrite !Z.sub_diag. cbn. nia.
+  - assert (Hlast : forall x rx, In x es -> In (fst x, rx) (map cap (full_of T W es) ++ keep_of T W es) ->
+              rx < request (fst x) -> rx = snd x + dl T W es x).
+    { intros x rx Hx Hin Hlt. apply in_app_or in Hin. destruct Hin as [Hin|Hin].
+      - apply cap_In in Hin. cbn [fst snd] in Hin. lia.
+      - apply keep_In in Hin. destruct Hin as [Hin _]. apply round_In in Hin.
+        destruct Hin as [y [Hy E]]. inversion E as [[E1 E2]].
+        assert (y = x) by (apply (Pre_In_eq W es); auto). subst y. reflexivity. }
+    rewrite (Hlast a ra Ha Hra Hsa), (Hlast b rb Hb Hrb Hsb).
+    pose proof (round_fair T W es a b HT HW HP Ha Hb) as HF.
+    replace (snd a + dl T W es a - snd a) with (dl T W es a) by lia.
+    replace (snd b + dl T W es b - snd b) with (dl T W es b) by lia.
+    pose proof (pre_wnn _ _ HP _ (in_map fst _ _ Ha)). pose proof (pre_wnn _ _ HP _ (in_map fst _ _ Hb)).
+    assert (1 <= Z.of_nat (length es)) by (destruct es; [congruence|cbn [length]; lia]).
+    nia.
+  - pose proof (Pre_keep T W es HP) as HPk.
+    assert (Hin_keep : forall x rx, In x es -> In (fst x, rx) (map cap (full_of T W es) ++ out) ->
+              rx < request (fst x) ->
+              In (fst x, snd x + dl T W es x) (keep_of T W es) /\ In (fst x, rx) out).
+    { intros x rx Hx Hin Hlt. apply in_app_or in Hin. destruct Hin as [Hin|Hin].
+      - apply cap_In in Hin. cbn [fst snd] in Hin. lia.
+      - split; [|exact Hin].
+        pose proof (iter_fst_perm _ _ _ _ _ HI) as HPm.
+        assert (Hf : In (fst x) (map fst (keep_of T W es))).
+        { eapply Permutation_in; [exact HPm|]. apply (in_map fst _ _ Hin). }
+        apply in_map_iff in Hf. destruct Hf as [k [Ek Hk]].
+        pose proof Hk as Hk'. apply keep_In in Hk'. destruct Hk' as [Hk' _].
+        apply round_In in Hk'. destruct Hk' as [y [Hy E]].
+        assert (y = x).
+        { apply (Pre_In_eq W es); auto. rewrite E in Ek. cbn [fst] in Ek. exact Ek. }
+        subst y. rewrite <- E. exact Hk. }
+    destruct (Hin_keep a ra Ha Hra Hsa) as [Hka Hoa].
+    destruct (Hin_keep b rb Hb Hrb Hsb) as [Hkb Hob].
+    specialize (IH HPk _ _ ra rb Hka Hkb Hoa Hob Hsa Hsb). cbn [fst snd] in IH.
+    pose proof (round_fair T W es a b HT HW HP Ha Hb) as HF.
+    pose proof (keep_length_lt T W es (surplus_pos_full T W es Hs)) as Hk.
+    pose proof (pre_wnn _ _ HP _ (in_map fst _ _ Ha)) as Hwa.
+    pose proof (pre_wnn _ _ HP _ (in_map fst _ _ Hb)) as Hwb.
+    set (wa := weight (fst a)) in *. set (wb := weight (fst b)) in *.
+    set (da := dl T W es a) in *. set (db := dl T W es b) in *.
+    set (A := (ra - (snd a + da)) * wb - (rb - (snd b + db)) * wa) in *.
+    set (B := da * wb - db * wa) in *.
+    replace ((ra - snd a) * wb - (rb - snd b) * wa) with (A + B) by (unfold A, B; ring).
+    assert (Z.of_nat (length (keep_of T W es)) * (wa + wb) + (wa + wb)
+            <= Z.of_nat (length es) * (wa + wb)) by nia.
+    lia.
+Qed.
